@@ -168,6 +168,67 @@ def obs_corpus() -> List[dict]:
     return out
 
 
+# --- header NAMES in the case the client chose (field names are case-insensitive; with `h11_pass_raw_headers` they reach the streams as
+#     written, while h11 / `_create_stream` / `_check_protocol` work on the lower-cased ones) -----------------------------------------
+NAME_STYLES = {"lower": lambda n: n.lower(), "Cap": lambda n: b"-".join(p.capitalize() for p in n.lower().split(b"-")), "UPPER": lambda n: n.upper(),
+               "mIxEd": lambda n: bytes(c ^ 0x20 if (i % 2 and chr(c).isalpha()) else c for i, c in enumerate(n.lower()))}
+
+
+def recase_names(req: bytes, style_of) -> bytes:
+    """`req` (a request head ending in CRLF CRLF, possibly followed by a body) with every header name rewritten in the style
+    `style_of(lower-case name)` names (a key of NAME_STYLES; None = as it is)"""
+    end = req.find(b"\r\n\r\n")
+    if end < 0:
+        return req
+    lines = req[:end].split(b"\r\n")
+    for i in range(1, len(lines)):
+        if b":" not in lines[i]:
+            continue
+        n, v = lines[i].split(b":", 1)
+        st = style_of(n.strip().lower())
+        if st is not None:
+            lines[i] = NAME_STYLES[st](n) + b":" + v
+    return b"\r\n".join(lines) + req[end:]
+
+
+def names_corpus() -> List[dict]:
+    """deterministic direct-drive sessions: a WebSocket handshake (accepted by the application, then a frame and the client's close) and
+    a plain request whose header names are written per header in another case - each interpreted header alone in another style than the
+    rest, all in one style - with `h11_pass_raw_headers` on (every one) and off (a third); a good request follows where it can"""
+    import random
+    rng = random.Random(11)
+    ws = (f"GET /ws HTTP/1.1\r\nhost: x\r\nupgrade: websocket\r\nconnection: keep-alive, Upgrade\r\nsec-websocket-key: {WS_KEY}\r\n"
+          f"sec-websocket-version: 13\r\nsec-websocket-protocol: chat\r\n\r\n").encode()
+    ws_nokey = ws.replace(f"sec-websocket-key: {WS_KEY}\r\n".encode(), b"")
+    plain = b"POST /b HTTP/1.1\r\nhost: x\r\nconnection: keep-alive\r\ncontent-length: 2\r\nexpect: 100-continue\r\n\r\nhi"
+    names = [b"host", b"upgrade", b"connection", b"sec-websocket-key", b"sec-websocket-version", b"sec-websocket-protocol", b"content-length", b"expect"]
+    patterns = [(f"all_{st}", (lambda n, st=st: st)) for st in ("Cap", "UPPER", "mIxEd")]
+    for nm in names:
+        for st in ("Cap", "UPPER"):
+            patterns.append((f"only_{nm.decode()}_{st}", (lambda n, nm=nm, st=st: st if n == nm else "lower")))
+        patterns.append((f"only_{nm.decode()}_lower", (lambda n, nm=nm: "lower" if n == nm else "Cap")))
+    out: List[dict] = []
+    k = 0
+    for base, req in (("ws", ws), ("ws_nokey", ws_nokey), ("body", plain)):
+        for pname, style in patterns:
+            for raw in (True, False):
+                k += 1
+                if not raw and k % 3:
+                    continue
+                data = recase_names(req, style)
+                if data == req:
+                    continue          # the request does not carry that header
+                steps = [{"data": b2s(data)}, {"send": [0, 0]}]
+                if base == "ws":
+                    steps += [{"data": b2s(ws_frames(rng, 2))}, {"send": [0, 11]}, {"data": ""}]
+                else:
+                    steps += [{"send": [0, 8]}, {"data": b2s(request_bytes(rng, "plain"))}, {"send": [1, 0]}, {"send": [1, 8]}, {"data": ""}]
+                out.append({"family": "h1direct", "kinds": [base + "+names:" + pname], "split": "one", "steps": steps, "ws_max": 16777216,
+                            "keep_alive_max": 1000, "server_names": ["x"] if k % 4 == 0 else [], "raw_headers": raw,
+                            "ping": False, "seed": k, "obs": []})
+    return out
+
+
 def ws_frames(rng, n: int) -> bytes:
     """client frames: text / binary, fragmented or not, control frames in between, closes, some garbage"""
     from wsproto.connection import Connection, ConnectionType
@@ -211,12 +272,18 @@ def gen_case(rng, idx: int) -> dict:
     ws_max = rng.choice([16777216, 16777216, 100, 1])
     data = b""
     obs = []
+    cased = False
     for k in kinds:
         req = request_bytes(rng, k)
         if k not in ("prior", "garbage") and rng.random() < 0.2:
             o = (rng.choice(INTERPRETED), rng.choice(OBS_HOWS), rng.choice(OBS_BYTES))
             req = obs_text(req, *o)
             obs.append([o[0].decode(), o[1], b2s(o[2])])
+        if k not in ("prior", "garbage") and rng.random() < 0.25:
+            # header names in a case of the client's choosing, per header
+            pick = {}
+            req = recase_names(req, lambda n: pick.setdefault(n, rng.choice(["lower", "lower", "Cap", "UPPER", "mIxEd", None])))
+            cased = True
         data += req
         if k in ("ws", "ws_expect", "ws_bad") and rng.random() < 0.8:
             # with a small message limit: several messages of both kinds, so that something follows the one that went over it
@@ -225,7 +292,7 @@ def gen_case(rng, idx: int) -> dict:
     steps: List[dict] = []
     if kinds[0] in ("ws", "ws_expect") and rng.random() < 0.6:
         # an accepted WebSocket: the handshake alone, the application's accept (message 0 of the pool), then everything else
-        head = data[:data.find(b"\r\n\r\n") + 4] if obs else request_bytes(rng, kinds[0])
+        head = data[:data.find(b"\r\n\r\n") + 4] if (obs or cased) else request_bytes(rng, kinds[0])
         rest = data[len(head):] if data.startswith(head) else ws_frames(rng, 4)
         steps += [{"data": b2s(head)}, {"send": [0, 0]}]
         data = rest if rest else ws_frames(rng, 3)
